@@ -183,7 +183,17 @@ class Scheduler:
                 if not (ev[0] == "msg" and wh.decode_reply(ev[1])[1] == "ok"):
                     acc.note(f"bystander configuration not acknowledged: {str(ev)[:80]}")
                 history.append((0, "bystander-open+config"))
+            import gc
+            gc_points = self.ctx.rng.sample(range(len(order) + 1), min(2, len(order) + 1)) \
+                if self.ctx.rng.random() < 0.15 else []
             for n_ev, j in enumerate(order):
+                if n_ev in gc_points:
+                    # the garbage collector runs now (as it may at any allocation): a full pass while connections are open
+                    # promotes their objects to the oldest generation, so that they are finalised LATER than the objects
+                    # of connections opened afterwards (see the staged passes before the probe)
+                    gc.collect()
+                    history.append((self.t, "gc"))
+                    acc.count("garbage_collections_at_schedule_points")
                 if warps and n_ev in warps and hasattr(loop, "warp"):
                     # idle time: the clock jumps, every timer due in the meantime fires now
                     loop.warp(warps[n_ev])
@@ -330,6 +340,14 @@ class Scheduler:
                               f"uploads of connections {sorted(acked_idx)} were both acknowledged",
                               dict(case, history=history, logs=[x.log for x in conns]))
                 return
+            if gc_points:
+                # young objects are collected first, the oldest generation last - each pass followed by time for whatever
+                # the finalisers started
+                for g_ in (0, 1, 2):
+                    gc.collect(g_)
+                    await self.settle(gate, policy)
+                    await asyncio.sleep(SETTLE)
+                acc.count("staged_garbage_collections_before_the_probe")
             # ---- probe: M2, M3, M4
             probe = wh.RawConn(self.server.uri, sid)
             try:
